@@ -96,7 +96,7 @@ DFS_CONFIGS = [
 def enumerations(tier):
     """Exhaustive exploration of *all* interleavings of two tasks (depth-first over the scheduler's
     choice points); one configuration per shard."""
-    limit = 2600 if tier == "quick" else 200000
+    limit = 3000 if tier == "quick" else 200000
     def g():
         for name, mode, tasks, pre in DFS_CONFIGS:
             yield {"dfs": name, "mode": mode, "tasks": tasks, "pre": pre, "limit": limit if mode == "threads" else limit // 5}
